@@ -5,6 +5,7 @@ import NodisVerif.Model.Handler2
 import NodisVerif.Model.Handler3
 import NodisVerif.Driver.FragOps
 import NodisVerif.Driver.ProtoOps
+import NodisVerif.Driver.LinkedListOps
 import NodisVerif.Model.Feed
 open NodisVerif
 
@@ -16,6 +17,7 @@ structure DState where
   gate : Gate.GState := {}
   feeds : List (String × List FeedOp) := []      -- per watched instance: records not yet drained (oldest first)
   patterns : List Bytes := []                    -- patterns of the second (filtered) watcher
+  ll : LinkedList.PList := {}                    -- the bare pointer-level list of the `ll` lines (C02)
 
 def DState.sv (d : DState) : Server := ((d.inst.find? (·.1 == d.cur)).map (·.2)).getD {}
 def DState.putSv (d : DState) (sv : Server) : DState :=
@@ -39,6 +41,7 @@ def step (d : DState) (line : String) : DState × String :=
   | [] => (d, "")
   | "ck" :: _ | "dk" :: _ | "ev" :: _ => (d, Driver.codecOp toks)
   | "frag" :: rest => (d, Driver.fragOp rest)
+  | "ll" :: rest => let (l, out) := Driver.llOp d.ll rest; ({ d with ll := l }, out)
   | "pev" :: rest => let (p, out) := Driver.protoOp d.proto rest; ({ d with proto := p }, out)
   | "bev" :: rest => let (b, out) := Driver.blockOp d.block rest; ({ d with block := b }, out)
   | "gev" :: rest => let (g, out) := Driver.gateOp d.gate rest; ({ d with gate := g }, out)
